@@ -35,6 +35,7 @@ class Setup:
         self.node_name = node_name          # "sym_foreign": symbolic element name constrained to be unknown
         self.both_modes = False             # run fail-fast first, then collecting, in one encoding (C04)
         self.prefix = []                    # concrete child names placed before the symbolic ones
+        self.warmup = []                    # modes ("coll" | "ff") to run on the same node BEFORE the primary call (call-history dependence)
 
 
 def _rule_parts(rule_name):
@@ -132,6 +133,20 @@ def run(setup, max_paths=3000, budget_s=120):
                 it.call(validate.node, [n, errs], {})
             else:
                 it.call(R.Rule(rn).validate_rule, [n, errs], {})
+        for wi, mode in enumerate(setup.warmup):
+            from metapype.eml.exceptions import MetapypeRuleError as _MRE
+            if mode == "coll":
+                wl = GuardedLog(it)
+                call(wl)
+                marks["w%d_accept" % wi] = zand(it.g, znot(wl.nonempty()))
+                marks["w%d_foreign" % wi] = zor(*[g for g, e in it.sinks[0]])
+            else:
+                call(None)
+                marks["w%d_accept" % wi] = it.g
+                marks["w%d_foreign" % wi] = zor(*[g for g, e in it.sinks[0] if not isinstance(e, _MRE)])
+            it.g = it.pc if it.forking else z3.BoolVal(True)
+            it.sinks[0] = []
+            it.tick += 1
         if setup.both_modes:
             from metapype.eml.exceptions import MetapypeRuleError
             call(None)
